@@ -436,14 +436,13 @@ func (e *env) do(op, method string, oversized bool, run func() error, verify fun
 	e.w.Metric("commands", 1)
 	e.w.Class(e.class() + "/" + strings.Fields(op)[0])
 	// the case is identified by the bytes the client put on the wire for it (tag stripped)
-	wire := e.log.Bytes("client")
-	if e.logPos <= len(wire) {
-		cmdBytes := wire[e.logPos:]
+	{
+		cmdBytes, next := e.log.Since("client", e.logPos)
+		e.logPos = next
 		if i := bytes.IndexByte(cmdBytes, ' '); i >= 0 {
 			cmdBytes = cmdBytes[i:]
 		}
 		e.w.Case(hx.HashBytes(append([]byte(e.class()), cmdBytes...)))
-		e.logPos = len(wire)
 	}
 	e.hist = append(e.hist, fmt.Sprintf("%s -> err=%v", op, err))
 	if len(e.hist) > 6 {
@@ -994,6 +993,16 @@ func body(w *hx.W) {
 	uni, ctx := sr.Universe(200)
 	rng := w.Rand("c02")
 	rounds := w.Pick(6, 100)
+	if w.Shard < 3 {
+		// a long-lived connection (thousands of commands): what reaches the backend must not depend
+		// on how much the connection has already carried
+		if w.Quick() {
+			rounds = 3
+		}
+		cfg := srvCfgs[w.Shard%len(srvCfgs)]
+		runSession(w, rng, cfg, []string{"none", "UTF8=ACCEPT", "none"}[w.Shard%3], uni, ctx, w.Pick(1200, 5000))
+		w.Metric("long_sessions", 1)
+	}
 	for round := 0; round < rounds; round++ {
 		for _, cfg := range srvCfgs {
 			for _, enabled := range []string{"none", "UTF8=ACCEPT", "IMAP4rev2"} {
@@ -1092,7 +1101,7 @@ func main() {
 	hx.Main(hx.Spec{
 		ID:    "C02",
 		Level: "exploration",
-		Rule:  "sessions of 45..60 client API calls over every command the server implements (LOGIN / AUTHENTICATE PLAIN, CREATE with special-use, DELETE, RENAME, SUBSCRIBE, UNSUBSCRIBE, LIST with select/return options and STATUS items, STATUS, APPEND with flags/date/payload sizes around 4096, SELECT/EXAMINE, UNSELECT, CLOSE, EXPUNGE, UID EXPUNGE, SEARCH/UID SEARCH with criteria trees of depth <= 2 over every field and return options incl. SAVE, FETCH/UID FETCH with all attribute subsets and body/binary sections with parts, specifiers, header lists and partials, STORE, COPY, MOVE, NAMESPACE, IDLE, UNAUTHENTICATE + LOGIN) x string arguments from 18 classes and mailbox names from 10 classes x servers {IMAP4rev1, rev1+rev2, rev1+LITERAL+, rev1+extensions} x {nothing enabled, UTF8=ACCEPT, IMAP4rev2}; distinct = distinct (server configuration, enabled extension, command bytes on the wire without the tag)",
+		Rule:  "sessions of 45..60 client API calls (plus long-lived sessions of 1200..5000 calls on one connection) over every command the server implements (LOGIN / AUTHENTICATE PLAIN, CREATE with special-use, DELETE, RENAME, SUBSCRIBE, UNSUBSCRIBE, LIST with select/return options and STATUS items, STATUS, APPEND with flags/date/payload sizes around 4096, SELECT/EXAMINE, UNSELECT, CLOSE, EXPUNGE, UID EXPUNGE, SEARCH/UID SEARCH with criteria trees of depth <= 2 over every field and return options incl. SAVE, FETCH/UID FETCH with all attribute subsets and body/binary sections with parts, specifiers, header lists and partials, STORE, COPY, MOVE, NAMESPACE, IDLE, UNAUTHENTICATE + LOGIN) x string arguments from 18 classes and mailbox names from 10 classes x servers {IMAP4rev1, rev1+rev2, rev1+LITERAL+, rev1+extensions} x {nothing enabled, UTF8=ACCEPT, IMAP4rev2}; distinct = distinct (server configuration, enabled extension, command bytes on the wire without the tag)",
 		Assumptions: []string{
 			"normalisation: INBOX case-fold; flags and header field names compared case-insensitively; search dates compared as calendar dates in the time's own zone; since+before 24h apart is equivalent to ON; Larger/Smaller zero = unset; a search without return option is delivered with ReturnAll (documented server default); UID commands imply the UID fetch item",
 			"an argument longer than 4096 bytes that the server has to buffer may be refused (checked by C06); if it is accepted it must be intact",
